@@ -174,6 +174,52 @@ def order_specs(ctx, rng):
     return out
 
 
+def _edges_of(world, seed):
+    """All edges (with their hierarchy flag) and nodes of the real graph built from one listing order."""
+    from pytestarch.eval_structure.networkxgraph import NetworkxGraph
+    from pytestarch.eval_structure_generation.file_import.import_types import AbsoluteImport
+    from harness.names import dotted
+
+    rnd = random.Random(seed)
+    mods = [dotted(m) for m in world["modules"]]
+    imps = [(dotted(u), dotted(v)) for u, v in world["imports"]]
+    if seed is not None:
+        rnd.shuffle(mods)
+        rnd.shuffle(imps)
+    g = NetworkxGraph(mods, [AbsoluteImport(u, v) for u, v in imps])._graph
+    return sorted(g.nodes), sorted((u, v, bool(d.get("inherits"))) for u, v, d in g.edges(data=True))
+
+
+def listing_order_cases(ctx, rng, only=None):
+    diffs, n = [], 0
+    worlds = []
+    if only is not None:
+        worlds = [only]
+    else:
+        for _ in range(150 if ctx.quick else 3000):
+            w = random_world(rng, n_modules=rng.randint(5, 14), n_imports=rng.randint(3, 25))
+            imports = [list(map(list, e)) for e in w.imports]
+            mods = [list(m) for m in w.modules]
+            # packages importing their own direct sub modules, each of which is also imported by someone else
+            for m in rng.sample(mods, min(3, len(mods))):
+                if len(m) > 1:
+                    imports.append([m[:-1], m])
+                    imports.append([rng.choice(mods), m])
+            worlds.append({"modules": mods, "imports": [e for e in imports if e[0] != e[1]]})
+    for w in worlds:
+        seeds = [None] + [rng.randint(0, 10 ** 6) for _ in range(4)]
+        ref = _edges_of(w, seeds[0])
+        n += 1
+        for sd in seeds[1:]:
+            got = _edges_of(w, sd)
+            if got != ref:
+                diffs.append({"world": w, "seeds": [seeds[0], sd],
+                              "diff": {"only_first": [e for e in ref[1] if e not in got[1]][:5],
+                                       "only_second": [e for e in got[1] if e not in ref[1]][:5]}})
+                break
+    return diffs, n
+
+
 def run_under_seeds(specs):
     root = tlc.scratch_root()
     fd, sp = tempfile.mkstemp(suffix=".json", dir=root)
@@ -259,6 +305,14 @@ def run(ctx):
             fails.append({"prop": "C15", "clause": "scan-result-depends-on-earlier-scans", "detail": {"scans": bad},
                           "event": {"scan": bad[0], "first_order": ra[bad[0]], "other_order": rb.get(bad[0])},
                           "spec": {"driver": "scan-orders", "a": a_spec, "b": b_spec}, "episode_events": None})
+    # (L) graph construction must not depend on the ORDER of the module list and the import list (which is what the
+    # directory enumeration order turns into) - also when a package imports its own direct sub module, which real
+    # scans produce for 'a.py' next to 'a/' (outside the scan generators' input language, so it is covered here)
+    listing_diffs, listing_cases = listing_order_cases(ctx, rng)
+    for d in listing_diffs:
+        fails.append({"prop": "C15", "clause": "architecture-depends-on-the-order-of-modules-or-imports", "detail": d["diff"],
+                      "event": d["diff"], "spec": {"driver": "listing", "world": d["world"], "seeds": d["seeds"]},
+                      "episode_events": None})
     # the reference traces must also be accepted by the specifications
     by_driver = {}
     for spec, ep in zip(hspecs, ref):
@@ -270,7 +324,7 @@ def run(ctx):
            "traces_validated_against_impl": n_traces, "trace_events": events,
            "simulated_histories": len(hists), "history_length": 40, "applies_compared_with_isolated_evaluation": applies,
            "same_law_instances": laws, "hash_seeds": SEEDS, "episodes_per_seed": len(hspecs),
-           "seed_differences": seed_diffs, "scan_order_pairs": len(ospecs), "scan_order_differences": order_diffs, "evaluations": applies + laws + len(hspecs) * len(SEEDS),
+           "seed_differences": seed_diffs, "listing_order_cases": listing_cases, "scan_order_pairs": len(ospecs), "scan_order_differences": order_diffs, "evaluations": applies + laws + len(hspecs) * len(SEEDS),
            "distinct_applies_on_nonempty_architectures": len(distinct_applies),
            "distinct_nontrivial": len(distinct_applies) + laws,
            "rule": "one case = one Apply inside a 40-step history (compared with the isolated evaluation), one "
@@ -294,6 +348,11 @@ def replay(ctx, rp):
                 tr = trace.validate([out[fam]], f"{module}.tla", f"{module}.cfg", procs=1)
                 fails += attach(tr, [spec], [out[fam]]); n += tr.events
         return CheckResult(fails=fails, coverage={"replayed_events": n})
+    if spec["driver"] == "listing":
+        diffs, _ = listing_order_cases(ctx, random.Random(0), only=spec["world"])
+        fails = [{"prop": "C15", "clause": "architecture-depends-on-the-order-of-modules-or-imports", "detail": d["diff"],
+                  "event": d["diff"], "spec": spec, "episode_events": None} for d in diffs]
+        return CheckResult(fails=fails, coverage={"replayed_listings": 5})
     if spec["driver"] == "scan-orders":
         ea, eb = runner.run_specs([spec["a"]], 1)[0], runner.run_specs([spec["b"]], 1)[0]
         ra = {e["id"]: (e["out"], e["modules"], e["imports"]) for e in ea if e["k"] == "scan"}
